@@ -6,6 +6,7 @@ the statement.  NumPy/Awkward result classes are the bounded C03 check."""
 from __future__ import annotations
 
 import itertools
+import os
 import time
 
 import numpy
@@ -304,6 +305,11 @@ def main(argv):
     ob = O.Obligations("C05")
     nkeys = census(ob)
     class_closure(ob)
+    from .. import numbaglue
+    ng, ng_skipped = numbaglue.run(os.path.join(C.REPO, "src", "vector"))
+    for oid, ok, d in ng:
+        ob.check(oid, ok, d)
+    ob.check("numba-glue/analysed-something", len(ng) >= 30, f"only {len(ng)} overloads have the analysable shape")
     n_before = ob.n
     backend_lattice(ob)
     n_backend = ob.n - n_before
@@ -335,7 +341,7 @@ def main(argv):
             nviol += len(items)
             report.violation(oid, dict(kind="object-backend-symbolic-evaluation", obligation_group=gname, failing_lattice_points=len(items),
                                        first=dict(obligation=oid, detail=detail), others=[o for o, _ in items[1:6]],
-                                       replay_handler="vv.props.engined_prop:replay" if oid in arr_ids else "vv.props.c05:replay"), has_input=True)
+                                       replay_handler="vv.props.engined_prop:replay" if oid in arr_ids else "vv.props.c05:replay"), has_input="/numba-glue/" not in oid)
     level = "proof" if not bad and not report.errors else "other"
     coverage = dict(obligations=n - nknown, discharged=n - len(bad), obligations_posed=n, known_findings=nknown, violations=nviol,
                     by_backend={"term identity on symbolic evaluation of the real object backend": n - len(bad)},
@@ -344,6 +350,8 @@ def main(argv):
                                                  "Awkward array (2 lists of 1), Awkward record; x flavors x dimensions x {add, subtract, cross, boost_p4, rotate_axis}"),
                     array_backend_class_lattice=dict(evaluations=n_arr, failed=len(arr_bad), label="BOUNDED run-time contracts (not counted in `obligations`; a failure is reported as a violation): result coordinate system and flavor of every "
                                                      "method on NumPy / Awkward operands equal those of the object-backend result, over the Engine D lattice of C03 (layouts, pairings)"),
+                    numba_glue_static=dict(obligations=len(ng), not_analysed=ng_skipped, how="static contract on backends/_numba_object.py: the kernel looked up for a signature receives exactly that "
+                                           "signature's coordinates, operand by operand (AST, path-sensitive in the if-branches); Numba's own compilation is out of reach (C07)"),
                     checker_cmd=f"./check C05 --tier {C.tier()}",
                     trusted_base=["parametricity of the object backend in its coordinate values (a token cannot be inspected without raising)",
                                   "NumPy's __array_ufunc__ / operator protocol delivers v+w, numpy.sqrt(v), ... to VectorObject.__array_ufunc__",
@@ -366,6 +374,16 @@ def replay(prop, rp, path):
     """re-run the shard of the recorded obligation"""
     import re
     oid = rp["first"]["obligation"]
+    if "/numba-glue/" in oid:
+        from .. import numbaglue
+        ng, _ = numbaglue.run(os.path.join(C.REPO, "src", "vector"))
+        still = [x for x in ng if not x[1] and oid.endswith(x[0])]
+        if still:
+            print("still failing:", still[0])
+            print(f"VIOLATION property={prop} replay={path} no-failing-input-found")
+            return 1
+        print("obligation holds on this tree")
+        return 0
     m = re.search(r"\[([a-z,]+)\|(mom|gen)\]", oid)
     if not m:
         print(rp)
